@@ -21,13 +21,33 @@ LISTINGS = ('kevents', 'formatted_kevents', 'traces', 'formatted_traces', 'calls
 
 
 def shared_parts(obj, depth=0):
-    """names of attributes of obj (one level of nesting) that are registered module-level / default-argument objects"""
+    """what a new object shares: attributes (one level of nesting) that are registered module-level / default-argument
+    objects, mutable containers declared at class level and not re-created by the constructor, and two attributes that are
+    one and the same mutable object"""
     out = []
-    for k, v in list(getattr(obj, 'fields', {}).items()):
+    fields = getattr(obj, 'fields', {})
+    for k, v in list(fields.items()):
         if id(v) in GLOBAL_OBJS:
             out.append('%s (%s)' % (k, GLOBAL_OBJS[id(v)][0]))
         elif depth == 0 and isinstance(v, Obj):
             out += ['%s.%s' % (k, x) for x in shared_parts(v, 1)]
+    if depth == 0:
+        cls = getattr(obj, 'cls', None)
+        seen = set()
+        while cls is not None:
+            for a, av in list(getattr(cls, 'attrs', {}).items()):
+                if a in seen or a in fields:
+                    continue
+                seen.add(a)
+                if isinstance(av, (PDict, PList, SymMap, SymList)):
+                    out.append('%s (mutable container declared at class level, never re-created per instance)' % a)
+            bases = getattr(cls, 'bases', None) or []
+            cls = bases[0] if bases and isinstance(bases[0], ClassVal) else None
+        names = sorted(k for k, v in fields.items() if isinstance(v, (PDict, PList, SymList)))
+        for i, a in enumerate(names):
+            for b in names[i + 1:]:
+                if fields[a] is fields[b]:
+                    out.append('%s and %s are one and the same object' % (a, b))
     return out
 
 
@@ -123,9 +143,53 @@ def run_cli(run, tier):
             run.undecide(ob, why)
 
 
+def run_data(run, tier):
+    """data lemma over the bundled code table (exhaustive): every name the code relies on - the keys of the decoder tables
+    and the name constants by which decoders and the pairing code select records - is carried by exactly one event id, so
+    that "the records named X" is what the property means by it"""
+    import ast
+    import os
+    pid = run.pid
+    if pid in ('C01', 'C02', 'C03', 'C12', 'C16'):
+        return
+    from pyvc import decoders
+    from pyvc.harness import bundled_codes_contract, REPO
+    sess = Session()
+    ob = '%s/data/bundled-table.names-the-code-relies-on-are-unambiguous' % pid
+    fq = 'pykdebugparser/trace.codes'
+    try:
+        table = bundled_codes_contract(sess.it, None, [], {}, None)
+        by_name = {}
+        for k in table.order:
+            by_name.setdefault(table.d[k][1], []).append(k)
+        names = set(decoders.handler_tables(sess))
+        for root, _, files in os.walk(os.path.join(REPO, 'pykdebugparser')):
+            for f in files:
+                if not f.endswith('.py') or not (root.endswith('trace_handlers') or f == 'traces_parser.py'):
+                    continue
+                tree = ast.parse(open(os.path.join(root, f)).read())
+                for fn in ast.walk(tree):
+                    if isinstance(fn, (ast.FunctionDef, ast.Lambda)):
+                        for c in ast.walk(fn):
+                            if isinstance(c, ast.Constant) and isinstance(c.value, str) and c.value in by_name:
+                                names.add(c.value)
+    except Unsupported as ex:
+        run.add(ob, 'unsupported', '', 0, fq, str(ex))
+        run.undecide(ob, str(ex))
+        return
+    bad = sorted(n for n in names if len(by_name.get(n, [])) > 1)
+    if not bad:
+        run.add(ob, 'proved', 'exhaustive table lemma (%d names)' % len(names), 0, fq, kind='lemma')
+    else:
+        why = 'names carried by several event ids: %s' % ', '.join('%s (%s)' % (n, ' '.join(hex(i) for i in by_name[n])) for n in bad[:6])
+        run.add(ob, 'refuted', 'exhaustive table lemma', 0, fq, why, kind='lemma')
+        run.violation(ob, {'request': None, 'solver_output': why}, False, what='bundled trace.codes: ' + why)
+
+
 def run_generic(run, tier):
     pid = run.pid
     failures = []
+    run_data(run, tier)
     run_wiring(run, tier)
     run_pipeline(run, tier)
     run_cli(run, tier)
